@@ -130,6 +130,28 @@ func c9Deep(n, d int) (string, int) {
 	return "(vsum " + pad + " " + chain + ")", padLeaves + d + 1
 }
 
+// c9Stack builds a program whose evaluation has `depth` operands pending at
+// its deepest point: nested sums, each level holding up to 126 variable
+// operands before the nested sum: (+ x*126 (+ x*126 ( ... (+ x x)))).
+// Returns the source, the number of leaves (= the value when x = 1) and the
+// node count.
+func c9Stack(depth int) (string, int, int) {
+	// innermost level: two leaves => 2 pending at the very bottom
+	src := "(+ x x)"
+	pending, leaves, nodes := 2, 2, 3
+	for pending < depth {
+		w := depth - pending
+		if w > 126 {
+			w = 126
+		}
+		src = "(+ " + rep1("x", w) + " " + src + ")"
+		pending += w
+		leaves += w
+		nodes += w + 1
+	}
+	return src, leaves, nodes
+}
+
 // c9Pairs builds an exactly-n-node program made almost entirely of two-leaf
 // operators (+ x x) — fast operators under FastEvaluation, whose operands get
 // no event node — grouped under vsum nodes of at most 100 operands.
@@ -227,7 +249,7 @@ func c09(r *rep.Run) {
 	if r.Thorough() {
 		r.SetBudget(1800e9)
 	}
-	r.Rule = "parameterised families, every member: (1) operand counts 120..130 for every n-ary operator kind (+, *, and, or, eq, registered variadic), written flat and as two/three nested and/or groups that flatten to that count; (2) node counts 16370..16395 and 32755..32775 (every value) in three shapes with exact closed-form node counts (wide 2-level, 3-level tree, deep right-nested chain with stack depth 20/300/5000 + padding); (3) stack contexts: every CORE/RICH tree of <= 5 nodes as last operand of a variadic registered operator after d in {4..9, 12..18} constant operands, and nested one level deeper; all x 16 optimisation subsets x {events off, ReportEvent, Debug}; Eval and TryEval. Oracle: Compile returns an error OR evaluation gives the closed-form / R1 result — never a panic or a wrong value; up to the limits (<=127 operands after flattening, <=32767 program slots incl. event nodes, computed from DumpTable) it must be the value. non-trivial = members within +-3 of a limit"
+	r.Rule = "parameterised families, every member: (1) operand counts 120..130 for every n-ary operator kind (+, *, and, or, eq, registered variadic), written flat and as two/three nested and/or groups that flatten to that count; (2) node counts 16370..16395 and 32755..32775 (every value) in three shapes with exact closed-form node counts (wide 2-level, 3-level tree, deep right-nested chain with stack depth 20/300/5000 + padding); (3) stack contexts: every CORE/RICH tree of <= 5 nodes as last operand of a variadic registered operator after d in {4..9, 12..18} constant operands, and nested one level deeper; (4) stack depths: nested 126-operand sums with 2^k-1, 2^k, 2^k+1 pending operands for k = 3..14 and up to 32500; all x 16 optimisation subsets x {events off, ReportEvent, Debug}; Eval and TryEval. Oracle: Compile returns an error OR evaluation gives the closed-form / R1 result — never a panic or a wrong value; up to the limits (<=127 operands after flattening, <=32767 program slots incl. event nodes, computed from DumpTable) it must be the value. non-trivial = members within +-3 of a limit"
 	r.Assume = []string{"event-mode program size is 2*nodes - 2*(number of fast operators), read from the event-free DumpTable",
 		"node-count families use one variable leaf (x=1) so that nothing is folded"}
 	hs := harnesses(r.Workers)
@@ -496,6 +518,67 @@ func c09(r *rep.Run) {
 			r.Sample(12, map[string]interface{}{"node_family": j.shape, "nodes": j.n})
 		}
 	})
+
+	// ---- (4) stack depths: every size class boundary of the operand stack ----
+	{
+		var depths []int
+		for k := 3; k <= 14; k++ {
+			depths = append(depths, 1<<k-1, 1<<k, 1<<k+1)
+		}
+		depths = append(depths, 12000, 20000, 24576, 24577, 30000, 32000, 32400, 32500)
+		if r.Thorough() {
+			for dd := 16380; dd <= 16390; dd++ {
+				depths = append(depths, dd)
+			}
+			for dd := 32400; dd <= 32520; dd += 10 {
+				depths = append(depths, dd)
+			}
+		}
+		var stackRuns int64
+		r.ParallelFor(len(depths), func(w, i int) {
+			depth := depths[i]
+			h := hs[w]
+			src, leaves, nodes := c9Stack(depth)
+			vars := []term.VarDecl{{Name: "x", Ty: I}}
+			for _, b := range optsN {
+				for _, ev := range evModes {
+					r.Note(w, sprintf("stack depth %d optset %d events %d", depth, b, ev))
+					o := drive.FromBits(b)
+					o.Events = ev
+					e, err := h.Compile(h.NewConfig(vars, o), src, 70000)
+					atomic.AddInt64(&cases, 1)
+					d := map[string]interface{}{"shape": "nested 126-operand sums", "stack_depth": depth, "nodes": nodes, "config": o.String()}
+					if pe, ok := err.(*drive.PanicErr); ok {
+						r.Violate("compile-panic", "stack"+pe.Site, sprintf("program with %d pending operands: Compile panics under %s: %v (at %s)", depth, o, pe.V, pe.Site), d)
+						continue
+					}
+					if err != nil {
+						atomic.AddInt64(&rejected, 1)
+						if ev == 0 {
+							r.Violate("rejected-below-limit", "stack"+o.String(), sprintf("program of %d nodes (<= 32767) with %d pending operands is rejected under %s: %v", nodes, depth, o, err), d)
+						}
+						continue
+					}
+					for mode := 0; mode < 2; mode++ {
+						h.Reset()
+						var got drive.Out
+						if mode == 0 {
+							got = h.Eval(e, c9fetch{int64(1)})
+						} else {
+							got = h.TryEval(e, c9fetch{int64(1)})
+						}
+						atomic.AddInt64(&evals, 1)
+						atomic.AddInt64(&stackRuns, 1)
+						if !drive.SameOutcome(got, drive.Out{Val: int64(leaves)}) {
+							r.Violate("wrong-value", "stack"+o.String(), sprintf("program with %d pending operands under %s (%s): %s instead of %d", depth, o, []string{"Eval", "TryEval"}[mode], got, leaves), d)
+						}
+					}
+				}
+			}
+		})
+		r.Cov["stack_depth_members"] = len(depths)
+		r.Cov["stack_depth_executions"] = stackRuns
+	}
 
 	// ---- (3) stack contexts ----
 	fmt.Printf("families done at %.1fs\n", time.Since(r.Start).Seconds())
